@@ -13,7 +13,7 @@ from dxv import spec
 POOL = list(spec.POOL)
 MULTIBYTE = ('utf-16', 'utf-16-le', 'utf-16-be', 'utf-32', 'utf-32-le',
              'utf-32-be')
-INDENTS = (0, 1, 2, 4, 7, 13)
+INDENTS = (0, 1, 2, 4, 4, 7, 13, 64, 200)
 
 HEADERISH = [
     '#diffx: version=1.0', '#diffx: encoding=utf-8, version=1.0',
@@ -275,6 +275,10 @@ def programs(draw, max_changes=3, max_files=3, pool=None):
 
     if draw(st.booleans()):
         add('meta', draw(meta_kwargs(w.enc[-1])))
+
+    if draw(st.integers(0, 14)) == 0:
+        # a wide file: many changes / files
+        max_changes, max_files = max_changes * 4, max_files * 2
 
     nchanges = draw(st.integers(1, max_changes))
 
